@@ -74,6 +74,8 @@ void __vf_yield_post(void){ }
 /* harness-level blocking: wait until *(int*)counter >= n (barriers, "task may finish now") */
 void __vf_wait_until_pre(void *counter, uint32_t n){ w_kind[__vf_cur] = W_UNTIL; w_obj[__vf_cur] = counter; w_arg[__vf_cur] = (int)n; }
 void __vf_wait_until_post(void *counter, uint32_t n){ w_kind[__vf_cur] = W_NONE; }
+void __vf_racy_pre(void *a){ w_kind[__vf_cur] = W_NONE; }
+void __vf_racy_post(void *a){ }
 void __vf_atomic_op_pre(void *a){ } 
 void __vf_atomic_op_post(void *a){ __vf_hb_acquire(a); __vf_hb_release(a); }
 void __vf_terminate(void){ __CPROVER_assert(0, "std::terminate called (joinable std::thread destroyed or assigned, or join of a non-joinable thread)"); __CPROVER_assume(0); }
